@@ -198,6 +198,8 @@ namespace options
                 continue;
             }
 
+            check_short_list(*it);
+
             if (try_parse_as_option(get_all_options(), it, args.end()) ||
                 try_parse_as_option(get_all_multi_options(), it, args.end()) ||
                 try_parse_as_toggle(*it))
@@ -345,6 +347,40 @@ namespace options
         }
 
         return false;
+    }
+
+    void parser::check_short_list(const user_input& in)
+    {
+        // in a list of short names like -abc, every single letter has to be a toggle
+        if (!in.is_short() || in.has_value())
+        {
+            return;
+        }
+
+        auto list = in.as_short_list();
+
+        if (list.size() < 2)
+        {
+            return;
+        }
+
+        std::set<std::string> toggle_names;
+
+        for (auto& toggle : get_all_toggles())
+        {
+            if (toggle.second->has_short_name())
+            {
+                toggle_names.insert(toggle.second->short_name());
+            }
+        }
+
+        for (auto& letter : list)
+        {
+            if (toggle_names.count(letter) == 0)
+            {
+                raise<parsing_error>("Argument '", in.data(), "' could not be parsed.");
+            }
+        }
     }
 
     bool parser::try_parse_as_toggle(const user_input& in)
